@@ -301,7 +301,15 @@ def header_writer(repo: Repo, chk: Check) -> None:
     f = repo.func("_asn1._pack_asn1")
     chk.analysed(f)
     p0, p1, p2, p3 = f.params[:4]
-    paths = layout.writer_paths(repo, f)
+    # minimal big-endian long form (loop shape certificate, names bound by matching)
+    okm, whym, nodem = minimal_long_form(repo, f)
+    chk.ob("O2", Site.of(f, nodem, "long form length octets"), okm, whym)
+    try:
+        paths = layout.writer_paths(repo, f)
+    except layout.Unsupported as e:
+        if not okm:
+            return  # the construction left the idiom *and* the minimality certificate failed: reported above
+        raise AnalysisError(f"_pack_asn1 left the idiom table: {e}")
     cls_term = repr(Lin.atom(("lshift", Lin.atom(("field", p0)), Lin(6))))
     num = Lin.atom(("field", p2))
     dlen = Lin.atom(("len", p3))
@@ -361,9 +369,6 @@ def header_writer(repo: Repo, chk: Check) -> None:
         chk.ob("O2", site, okd, "then the content octets" if okd else f"the TLV does not end with exactly the content octets ({[sg.kind for sg in segs[i:]]})")
     chk.count("pack rows", rows)
     chk.require_min("pack rows", 8)
-    # minimal big-endian long form (loop shape certificate, names bound by matching)
-    ok, why, node = minimal_long_form(repo, f)
-    chk.ob("O2", Site.of(f, node, "long form length octets"), ok, why)
     guard = [n for n in body_nodes(f.node) if isinstance(n, ast.If) and any(isinstance(x, ast.Raise) for x in n.body) and p0 in unparse(n.test)]
     chk.ob("O2", Site.of(f, construct="tag class range"), bool(guard), "classes outside 0..3 are rejected")
 
